@@ -95,4 +95,10 @@ impl Configuration {
     pub(crate) fn describe(&self, l: &impl AckedIndexer) -> String {
         MajorityConfig::new(self.ids().iter().collect()).describe(l)
     }
+
+    /// Read-only access to the two halves (verification builds only).
+    #[cfg(tikv_raft_rs_verif)]
+    pub fn verif_halves(&self) -> (&MajorityConfig, &MajorityConfig) {
+        (&self.incoming, &self.outgoing)
+    }
 }
